@@ -15,7 +15,7 @@ LEAN = os.path.join(VERIF, "lean")
 GUARD = "MPT_BASE_VERIF"
 
 LIBS = ["mptcore", "mptio", "mptplot"]
-CFLAGS = ["-O1", "-g", "-fsanitize=address,undefined", "-fno-sanitize-recover=undefined",
+CFLAGS = ["-O1", "-g", "-fsanitize=address,undefined", "-fno-sanitize=nonnull-attribute", "-fno-sanitize-recover=undefined",
           "-fno-omit-frame-pointer", "-D" + GUARD, "-w", "-fPIC"]
 INCS = ["-I" + os.path.join(REPO, d) for d in ("mptcore", "mptio", "mptplot", "mpt++", ".")]
 
